@@ -543,6 +543,8 @@ func checkC11(w *World) {
 	w.settingsOptions(P, r)
 	// the bindings, the context node and the position reach every sub-expression: contexts are complete copies
 	w.include(P, "C01", "R01.13")
+	// a variable keeps evaluating to the bound value: evaluation never writes into the caller's bindings
+	w.include(P, "C13", "R13.1")
 }
 
 func inRepoGlobal(g *ssa.Global) bool {
